@@ -178,6 +178,7 @@ def generate_herds(n, seed, first_id):
 
 
 ORDER = []     # scenario ids in execution order (shard after shard) of the last run_rig call
+STUCK = []     # (scenario id, goroutine dump, shard input) of rig processes stopped by the watchdog
 CRASHES = []   # (panic message, output tail, shard input file) of rig processes killed by a panic in broker code
 
 
@@ -190,7 +191,7 @@ def rig_binary(race=False):
     return _BIN[race]
 
 
-def run_rig(chk, scenarios, race=False, shards=None, tag="rig"):
+def run_rig(chk, scenarios, race=False, shards=None, tag="rig", watchdog=None):
     """Execute scenarios on the real broker; returns {scenario id: [events]} and raw outputs."""
     binary = rig_binary(race)
     shards = shards or min(vlib.NCPU, max(1, len(scenarios) // 50))
@@ -206,7 +207,7 @@ def run_rig(chk, scenarios, race=False, shards=None, tag="rig"):
         vlib.write_ndjson(inp, part)
 
         def job(inp=inp, outp=outp):
-            env = vlib.goenv({"VERIF_IN": inp, "VERIF_OUT": outp, "GODEBUG": "asynctimerchan=0"})
+            env = vlib.goenv({"VERIF_IN": inp, "VERIF_OUT": outp, "GODEBUG": "asynctimerchan=0", "VERIF_WATCHDOG": watchdog or "20s"})
             r = vlib.run([binary, "-test.run", "TestVerifBrokerScenarios", "-test.timeout", "600s"], cwd=d, env=env, timeout=700)
             return r, outp
         jobs.append(job)
@@ -217,7 +218,12 @@ def run_rig(chk, scenarios, race=False, shards=None, tag="rig"):
         ORDER.extend(s_["id"] for s_ in part)
     for r, outp in vlib.run_parallel(jobs):
         outputs.append(r.out)
-        if r.timed_out or r.rc != 0:
+        if r.rc == 7 and os.path.exists(outp):
+            # watchdog: nothing happened for 20 s of real time under the fake clock
+            for ev in vlib.read_ndjson(outp):
+                if ev.get("ev") == "stuck":
+                    STUCK.append((ev["sc"], ev["stacks"], outp.replace("out-", "in-")))
+        elif r.timed_out or r.rc != 0:
             m = re.search(r"^panic: (.*)$", r.out, re.M)
             if m and re.search(r"^main\.\(\*(BrokerContext|IPC)\)|^main\.(proxyPolls|clientOffers|proxyAnswers|ampClientOffers)|container/heap", r.out, re.M) \
                     and "rig_verif_test.go" not in r.out.split("goroutine", 2)[1 if "goroutine" in r.out else 0][:2000]:
@@ -245,6 +251,23 @@ def used_names(events):
         if ev.get("ev") == "a.lookup" and ev.get("sid") and ev["sid"] != "unknownSid":
             P.add(ev["sid"])
     return sorted(P), sorted(C), sorted(A)
+
+
+def stuck_signature(stacks):
+    """From a goroutine dump: which broker functions wait for a mutex and which sit in a channel operation."""
+    lock, chan = set(), set()
+    for g in stacks.split("\n\n"):
+        fns = re.findall(r"^(\S+)\(", g, re.M)
+        broker = [f.rsplit("/", 1)[-1] for f in fns if "/broker." in f and "vRig" not in f and ".v" not in f.rsplit("/", 1)[-1][:9] and "TestVerif" not in f]
+        if not broker:
+            continue
+        head = g.split("\n", 1)[0]
+        if "sync.Mutex.Lock" in head or "semacquire" in head or any("sync.(*Mutex).Lock" in f for f in fns[:4]):
+            lock.add(broker[0])
+        elif "chan send" in head or "chan receive" in head or "select" in head:
+            chan.add(broker[0])
+    sig = "stuck:mutex-wait[%s]/chan-wait[%s]" % (",".join(sorted(lock)), ",".join(sorted(chan)))
+    return sig, "goroutines waiting for a mutex: %s; goroutines in a channel operation: %s" % (sorted(lock), sorted(chan))
 
 
 def hang_signature(events, pending):
@@ -351,6 +374,30 @@ def pipeline(chk, owner, tier, seed, counts=None, herds=None, do_mc=True, mc_onl
     chk.cov["distinct_nontrivial"] += len(distinct)
     for s in scen[:1] + scen[-1:]:
         chk.sample({"scenario": s, "recorded_events": by_sc.get(s["id"], [])[:12]})
+    if STUCK:
+        sid, stacks, inp = STUCK[0]
+        sig, what = stuck_signature(stacks)
+        if owner == "C04":
+            # confirm by an isolated re-run with a doubled limit
+            del STUCK[:]
+            sc = dict(by_id[sid], fresh=True)
+            run_rig(chk, [sc], shards=1, tag="stuck-confirm", watchdog="40s")
+            if STUCK:
+                sig, what = stuck_signature(STUCK[0][1])
+                chk.violation("C04/" + sig, "the broker made no progress for 40 s of real time under the fake clock: " + what, {"scenario": sc, "stacks": STUCK[0][1][:8000]})
+                return
+            raise vlib.Inconclusive("a stuck scenario (%s) did not reproduce in isolation" % sig)
+        chk.note("the broker got stuck during replay (reported by C04): %s; continuing with the scenarios that completed" % sig)
+        by_sc = {k: v for k, v in by_sc.items() if any(e["ev"] == "end" for e in v)}
+    if CRASHES:
+        msg, tail, inp = CRASHES[0]
+        if owner == "C04":
+            chk.violation("C04/crash:" + re.sub(r"\[recovered\].*|0x[0-9a-f]+|\d+", "", msg).strip()[:80],
+                          "a goroutine of the broker panicked (the process would terminate): %s" % msg,
+                          {"shard": vlib.read_ndjson(inp) if os.path.exists(inp) else None, "output": tail})
+            return
+        chk.note("the broker crashed during replay (reported by C04): %s; continuing with the scenarios that completed" % msg)
+        by_sc = {k: v for k, v in by_sc.items() if any(e["ev"] == "end" for e in v)}
     # hangs and divergences are observed directly
     ok_sc = {}
     diverged = 0
@@ -367,17 +414,8 @@ def pipeline(chk, owner, tier, seed, counts=None, herds=None, do_mc=True, mc_onl
                               {"scenario": by_id[sid], "events": evs})
             continue
         ok_sc[sid] = evs
-    if CRASHES:
-        msg, tail, inp = CRASHES[0]
-        if owner == "C04":
-            chk.violation("C04/crash:" + re.sub(r"\[recovered\].*|0x[0-9a-f]+|\d+", "", msg).strip()[:80],
-                          "a goroutine of the broker panicked (the process would terminate): %s" % msg,
-                          {"shard": vlib.read_ndjson(inp) if os.path.exists(inp) else None, "output": tail})
-            return
-        chk.note("the broker crashed during replay (reported by C04): %s; continuing with the scenarios that completed" % msg)
-        by_sc = {k: v for k, v in by_sc.items() if any(e["ev"] == "end" for e in v)}
     missing = set(by_id) - set(by_sc)
-    if missing and not CRASHES:
+    if missing and not CRASHES and not STUCK:
         raise vlib.Inconclusive("%d scenarios produced no trace" % len(missing))
     chk.cov["replay_divergences"] = diverged
     findings, accepted = validate(chk, ok_sc)
